@@ -4,7 +4,7 @@ from __future__ import annotations
 import ast
 import itertools
 
-from ..absval import Undecided, eval_expr
+from ..absval import Undecided, eval_expr, eval_resolved
 from ..core import (AnalysisError, call_name, dotted, is_const, kwarg, local_defs, norm, origin,
                     parent_map, walk_local)
 from ..facts import guards_of, returns_of, enclosing_loops, default_of
@@ -376,16 +376,21 @@ def use_filter(rep):
             if inner is not None:
                 t, sense = inner
                 txt = norm(t)
-                if "number_of" in txt or "len(" in txt:
+                fdefs = local_defs(fi.node)
+                size_like = False
+                try:
+                    # (child nodes, parent nodes, child edges, parent edges) of pairs where the child IS contained
+                    # (monomorphically: equal node counts do not force equal edge counts)
+                    vals = []
+                    for cn, pn, ce, pe in ((2, 3, 1, 2), (3, 3, 2, 2), (1, 1, 0, 0), (3, 4, 3, 3), (3, 3, 2, 3), (4, 4, 3, 5)):
+                        env = _size_env(pn, cn, pe, ce, "parent_graph", "child_graph")
+                        vals.append(bool(eval_resolved(t, env, fdefs)) == sense)
+                    size_like = True
+                except Undecided:
+                    size_like = False
+                if size_like:
                     kind = "SIZE"
-                    try:
-                        vals = []
-                        for cn, pn, ce, pe in ((2, 3, 1, 2), (3, 3, 2, 2), (1, 1, 0, 0), (3, 4, 3, 3)):
-                            env = _size_env(pn, cn, pe, ce, "parent_graph", "child_graph")
-                            vals.append(bool(eval_expr(t, env)) == sense)
-                        ok = not any(vals)
-                    except Undecided:
-                        ok = None
+                    ok = not any(vals)
                 elif txt in ("not found_match",) and sense:
                     kind, ok = "LABEL-AVAILABLE", True
                 elif isinstance(t, ast.Compare) and isinstance(t.ops[0], ast.NotIn) and sense:
